@@ -549,8 +549,6 @@ func jpfMaxBy(arguments []interface{}) (interface{}, error) {
 	node := exp.ref
 	if len(arr) == 0 {
 		return nil, nil
-	} else if len(arr) == 1 {
-		return arr[0], nil
 	}
 	start, err := intr.Execute(node, arr[0])
 	if err != nil {
@@ -645,8 +643,6 @@ func jpfMinBy(arguments []interface{}) (interface{}, error) {
 	node := exp.ref
 	if len(arr) == 0 {
 		return nil, nil
-	} else if len(arr) == 1 {
-		return arr[0], nil
 	}
 	start, err := intr.Execute(node, arr[0])
 	if err != nil {
@@ -757,27 +753,28 @@ func jpfSortBy(arguments []interface{}) (interface{}, error) {
 	node := exp.ref
 	if len(arr) == 0 {
 		return arr, nil
-	} else if len(arr) == 1 {
-		return arr, nil
 	}
 	start, err := intr.Execute(node, arr[0])
 	if err != nil {
 		return nil, err
 	}
+	// Sort a copy: the argument may be part of the caller's document.
+	sorted := make([]interface{}, len(arr))
+	copy(sorted, arr)
 	if _, ok := start.(float64); ok {
-		sortable := &byExprFloat{intr, node, arr, false}
+		sortable := &byExprFloat{intr, node, sorted, false}
 		sort.Stable(sortable)
 		if sortable.hasError {
 			return nil, errors.New("error in sort_by comparison")
 		}
-		return arr, nil
+		return sorted, nil
 	} else if _, ok := start.(string); ok {
-		sortable := &byExprString{intr, node, arr, false}
+		sortable := &byExprString{intr, node, sorted, false}
 		sort.Stable(sortable)
 		if sortable.hasError {
 			return nil, errors.New("error in sort_by comparison")
 		}
-		return arr, nil
+		return sorted, nil
 	} else {
 		return nil, errors.New("invalid type, must be number of string")
 	}
